@@ -374,6 +374,88 @@ class C16(spec.Spec):
         return "# document %r of provmc.props.c16.docs(), format %r" % (hist[1], hist[2])
 
 
+LOCALE_ENV = {"LC_ALL": "C", "LANG": "C", "PYTHONUTF8": "0", "PYTHONCOERCECLOCALE": "0"}
+
+
+def locale_child(outpath):
+    """runs in a process whose default text encoding is ASCII (a stand-in for any non-UTF-8 locale): for the documents
+    with non-ASCII content, a path destination must hold the same bytes as a binary stream, and a path source must
+    read as the same document as a binary stream source"""
+    import json
+    import locale
+    import logging
+    logging.disable(logging.CRITICAL)
+    viol = []
+    enc = locale.getpreferredencoding(False)
+    tmp = tempfile.mkdtemp(prefix="provmc_c16_")
+    sp = C16("quick", {})
+    cells = 0
+    try:
+        for name, doc in sp.docs:
+            if name not in ("non-ascii-id-and-value", "value-kinds", "one-bundle", "unicode-line-separators"):
+                continue
+            for fmt in ("json", "json/ensure_ascii=False", "xml", "rdf", "provn"):
+                base = VARIANTS.get(fmt, (fmt, {}))[0]
+                cells += 1
+                bio = io.BytesIO()
+                sp.ser(doc, fmt, bio)
+                want = bio.getvalue()
+                path = os.path.join(tmp, "out%d.%s" % (cells, base))
+                try:
+                    sp.ser(doc, fmt, path)
+                    with open(path, "rb") as f:
+                        got = f.read()
+                    same = (c14n(got) == c14n(want)) if base == "xml" else (got == want)
+                    if not same:
+                        viol.append(("destinations-disagree", "%s:path-under-%s-locale" % (fmt, enc), {"len": len(got), "expected_len": len(want)}, name, fmt))
+                except Exception as e:
+                    viol.append(("serialize-raises", "%s:path-under-%s-locale:%s" % (fmt, enc, type(e).__name__), {"error": repr(e)[:200]}, name, fmt))
+                    continue
+                if base == "provn":
+                    continue
+                with open(path, "wb") as f:
+                    f.write(want)
+                for rname, rd in (("deserialize", lambda: ProvDocument.deserialize(source=path, format=base)),
+                                  ("prov.read(format)", lambda: prov.read(path, format=base)),
+                                  ("prov.read()", lambda: prov.read(path))):
+                    try:
+                        got_doc = rd()
+                    except Exception as e:
+                        viol.append(("reader-raises", "%s:path-under-%s-locale:%s:%s" % (fmt, enc, rname, type(e).__name__), {"error": repr(e)[:200]}, name, fmt))
+                        continue
+                    if got_doc is None or not same_doc(base, got_doc, doc):
+                        viol.append(("reader-returns-other-document", "%s:path-under-%s-locale:%s" % (fmt, enc, rname), {}, name, fmt))
+    finally:
+        shutil.rmtree(tmp, ignore_errors=True)
+    with open(outpath, "w") as f:
+        json.dump({"encoding": enc, "cells": cells, "violations": viol}, f)
+
+
+def run_locale_dimension(out):
+    """the locale as an environment dimension: one child process with an ASCII default encoding"""
+    import json
+    import subprocess
+    import sys
+    fd, outp = tempfile.mkstemp(prefix="provmc_c16_", suffix=".json")
+    os.close(fd)
+    env = dict(os.environ)
+    env.update(LOCALE_ENV)
+    env.pop("PYTHONIOENCODING", None)
+    try:
+        subprocess.run([sys.executable, "-B", "-m", "provmc.props.c16", "--locale-child", outp], env=env,
+                       cwd=os.path.dirname(os.path.dirname(os.path.dirname(os.path.abspath(__file__)))),
+                       check=True, timeout=600, stdout=subprocess.DEVNULL, stderr=subprocess.PIPE)
+        with open(outp) as f:
+            res = json.load(f)
+    finally:
+        os.unlink(outp)
+    for clause, sig, detail, name, fmt in res["violations"]:
+        out.violation(clause, sig, detail, ("c16-locale", name, fmt))
+    out.transitions += res["cells"] * 4
+    out.outcomes["cells-under-%s-locale" % res["encoding"]] += res["cells"]
+    return res["encoding"]
+
+
 def make_spec(tier, params):
     import logging
     logging.disable(logging.CRITICAL)  # rdflib logs warnings when prov.read() tries TriG on other formats
@@ -388,6 +470,7 @@ def main(tier, seed):
     items = [(i, f) for i in range(len(sp.docs)) for f in ("json", "xml", "rdf", "provn") + tuple(VARIANTS)]
     out = explore.pmap(__name__, tier, {}, "cell", items, chunk=1)
     out.evaluations -= len(items)
+    locale_enc = run_locale_dimension(out)
     vs, nsig = runner.violations_json(sp, out)
     cov = {
         "states": out.nontrivial, "transitions": out.transitions, "traces_validated_against_impl": out.conform,
@@ -399,7 +482,8 @@ def main(tier, seed):
                  "destinations compared and all sources read" % len(sp.docs)),
         "samples": out.samples[:2], "exhaustive": True, "cells": len(items),
         "filters": dict(out.filters), "outcomes": dict(out.outcomes),
-        "not_explored": ["locale encodings other than UTF-8 for deserialize(source=path) (open() default encoding)"],
+        "locale_dimension": "path destination and path source also under a default text encoding of %s (child process)" % locale_enc,
+        "not_explored": ["default text encodings other than UTF-8 and ASCII (cp1252, latin-1: not installed here)"],
     }
     return {"property": "C16", "coverage": cov, "violations": vs, "signatures": nsig,
             "wall_s": round(time.time() - t0, 2)}
@@ -413,7 +497,15 @@ def replay(item, tier, seed):
     names = [n for n, _ in sp.docs]
     if h and h[0] == "c16":
         sp.cell((names.index(h[1]), h[2]), out)
+    elif h and h[0] == "c16-locale":
+        run_locale_dimension(out)
     vs, _ = runner.violations_json(sp, out)
     vs = [v for v in vs if v["clause"] == item.get("clause") and v["sig"] == item.get("sig")] or vs
     return {"property": "C16", "coverage": {"states": 1, "transitions": 1, "traces_validated_against_impl": 1,
             "samples": [{"replayed": h}]}, "violations": vs, "wall_s": 0}
+
+
+if __name__ == "__main__":
+    import sys
+    if len(sys.argv) == 3 and sys.argv[1] == "--locale-child":
+        locale_child(sys.argv[2])
